@@ -29,6 +29,52 @@ theorem fixed_deref_iff (e : Expr) (a : Bool) (m : Bool) (t : Ty) (h : tyOf e = 
   rw [hx, h]
   cases m <;> cases x <;> simp [byType, Ty.asPointer]
 
+/-- after at least one hop, the last one decides -/
+theorem verdict_hops (p : Place) (init : List Bool) (m : Bool) :
+    ((init ++ [m]).foldl Place.hop p).verdict = if m then .writable else .readonly := by
+  rw [List.foldl_append]
+  simp only [List.foldl_cons, List.foldl_nil]
+  exact verdict_hop _ m
+
+/-- `e[i]` / `e.field` for `e : ta` (every pointer level followed): the verdict of the place and
+the answer of the two arms agree, given that they agree on `e` itself -/
+theorem auto_exact (prev : Expr) (a : Bool) (ta : Ty) (hty : tyOf prev = ta)
+    (ih : (verdict prev = .writable → getMutability true prev a false = .mutable) ∧
+          (verdict prev = .readonly → getMutability true prev a false ≠ .mutable)) :
+    ((ta.levels.foldl Place.hop (place prev)).verdict = .writable →
+        autoArm ta.innermostAutoDeref (getMutability true prev a true) (getMutability true prev a (false || ta.isPointer)) = .mutable) ∧
+    ((ta.levels.foldl Place.hop (place prev)).verdict = .readonly →
+        autoArm ta.innermostAutoDeref (getMutability true prev a true) (getMutability true prev a (false || ta.isPointer)) ≠ .mutable) := by
+  cases hta : ta with
+  | ptr m t =>
+    subst hta
+    rcases List.eq_nil_or_concat t.levels with hl | ⟨init, last, hl⟩
+    · -- one level: the ordinary walk under `deref`
+      have h1 : (Ty.ptr m t).innermostAutoDeref = none := by
+        simp [Ty.innermostAutoDeref, Ty.levels, hl]
+      have hv := verdict_hops (place prev) [] m
+      simp only [List.nil_append] at hv
+      simp only [Ty.levels, hl, h1, Ty.isPointer, Bool.false_or, hv, autoArm]
+      have := fixed_deref_iff prev a m t hty
+      cases m <;> simp_all
+    · -- two or more levels: the innermost decides
+      rw [List.concat_eq_append] at hl
+      have h1 : (Ty.ptr m t).innermostAutoDeref = some last := by
+        simp only [Ty.innermostAutoDeref, Ty.levels, hl]
+        rw [show m :: (init ++ [last]) = (m :: init) ++ [last] from rfl, List.getLast?_concat]
+        simp
+      have hv := verdict_hops (place prev) (m :: init) last
+      simp only [Ty.levels, hl, h1]
+      rw [show m :: (init ++ [last]) = (m :: init) ++ [last] from rfl, hv]
+      cases last <;> simp [autoArm]
+      cases getMutability true prev a true <;> simp
+  | int => subst hta; simpa [Ty.levels, Ty.innermostAutoDeref, Ty.isPointer, verdict, autoArm] using ih
+  | arr _ => subst hta; simpa [Ty.levels, Ty.innermostAutoDeref, Ty.isPointer, verdict, autoArm] using ih
+  | opt _ => subst hta; simpa [Ty.levels, Ty.innermostAutoDeref, Ty.isPointer, verdict, autoArm] using ih
+  | struct _ => subst hta; simpa [Ty.levels, Ty.innermostAutoDeref, Ty.isPointer, verdict, autoArm] using ih
+  | file => subst hta; simpa [Ty.levels, Ty.innermostAutoDeref, Ty.isPointer, verdict, autoArm] using ih
+  | other => subst hta; simpa [Ty.levels, Ty.innermostAutoDeref, Ty.isPointer, verdict, autoArm] using ih
+
 /-- the verdict of the fixed walk on a well-typed expression, both directions at once -/
 theorem fixed_exact (e : Expr) (a : Bool) :
     ∀ t, typeOf e = some t →
@@ -71,36 +117,24 @@ theorem fixed_exact (e : Expr) (a : Bool) :
   | index arr ih =>
     intro t ht
     simp only [typeOf] at ht
-    split at ht
-    · rename_i t' hp
+    cases hp : typeOf arr with
+    | none => simp [hp] at ht
+    | some ta =>
       have hty := tyOf_of_typeOf hp
-      have := ih _ hp
-      simpa [verdict, place, hty, getMutability, byType_noderef, Ty.isPointer] using this
-    · rename_i m' t' hp
-      have hty := tyOf_of_typeOf hp
-      simp only [verdict, place, hty, verdict_hop, getMutability, byType_noderef, Ty.isPointer,
-        Bool.false_or]
-      have := fixed_deref_iff arr a m' _ hty
-      cases m' <;> simp_all
-    · cases ht
+      have := auto_exact arr a ta hty (ih _ hp)
+      simpa [verdict, place, hty, getMutability, byType_noderef] using this
   | member prev ty ih =>
     intro t ht
     simp only [typeOf] at ht
-    split at ht
-    · rename_i id hp
+    cases hp : typeOf prev with
+    | none => simp [hp] at ht
+    | some ta =>
       have hty := tyOf_of_typeOf hp
-      have := ih _ hp
-      simpa [verdict, place, hty, getMutability, byType_noderef, Ty.isPointer] using this
-    · rename_i m' id hp
-      have hty := tyOf_of_typeOf hp
-      simp only [verdict, place, hty, verdict_hop, getMutability, byType_noderef, Ty.isPointer,
-        Bool.false_or]
-      have := fixed_deref_iff prev a m' _ hty
-      cases m' <;> simp_all
-    · rename_i hp
-      have hty := tyOf_of_typeOf hp
-      simp [verdict, place, hty, Place.verdict, getMutability, byType_noderef]
-    · cases ht
+      by_cases hf : ta = .file
+      · subst hf
+        simp [verdict, place, hty, Place.verdict, getMutability, byType_noderef]
+      · have := auto_exact prev a ta hty (ih _ hp)
+        cases ta <;> first | exact absurd rfl hf | simpa [verdict, place, hty, getMutability, byType_noderef] using this
   | paren e ih =>
     intro t ht
     simp only [typeOf] at ht
